@@ -249,11 +249,18 @@ func (s *State) AssumeEq(e Lin) {
 		}
 		return
 	}
-	// prefer to eliminate the highest-numbered atom with coefficient +-1 (most recently created)
+	// prefer to eliminate a short-lived atom (SSA register) over long-lived ones
+	// (memory cells, parameters): constraints about the latter must stay readable
+	// after the registers of a callee are discarded
 	pick := -1
 	for i, t := range e.T {
 		if t.K == 1 || t.K == -1 {
-			if pick < 0 || t.A > e.T[pick].A {
+			if pick < 0 {
+				pick = i
+				continue
+			}
+			ri, rp := s.eng.atomRank(t.A), s.eng.atomRank(e.T[pick].A)
+			if ri < rp || (ri == rp && t.A > e.T[pick].A) {
 				pick = i
 			}
 		}
@@ -524,7 +531,68 @@ func (s *State) String() string {
 	for a, c := range s.cong {
 		parts = append(parts, fmt.Sprintf("%s ≡ %d mod %d", s.eng.atomName(a), c.R, c.M))
 	}
+	var nn, en []string
+	for k := range s.nonnil {
+		nn = append(nn, k)
+	}
+	for k := range s.elemsNN {
+		en = append(en, k)
+	}
+	sort.Strings(nn)
+	sort.Strings(en)
+	parts = append(parts, "NONNIL{"+strings.Join(nn, ",")+"}", "ELEMSNN{"+strings.Join(en, ",")+"}")
 	return strings.Join(parts, "; ")
+}
+
+// Canonicalize turns pairs of opposite inequalities (e >= 0 and -e >= 0) into
+// solved equalities, so that values that are implied to be equal or constant
+// become syntactically so (needed by the join's lockstep candidates).
+func (s *State) Canonicalize() {
+	if s.dead {
+		return
+	}
+	for iter := 0; iter < 8; iter++ {
+		found := false
+		idx := map[uint64][]int{}
+		for i, c := range s.ineq {
+			idx[c.Hash()] = append(idx[c.Hash()], i)
+		}
+		for i, c := range s.ineq {
+			n := c.Neg()
+			if n.Bad {
+				continue
+			}
+			for _, j := range idx[n.Hash()] {
+				if j != i && s.ineq[j].SameTerms(n) && s.ineq[j].C == n.C {
+					// c >= 0 and -c >= 0
+					e := c
+					s.ineq[i] = Lin{}
+					s.ineq[j] = Lin{}
+					s.checkConst0()
+					s.AssumeEq(e)
+					found = true
+					break
+				}
+			}
+			if found {
+				break
+			}
+		}
+		if !found {
+			return
+		}
+	}
+}
+
+func (s *State) checkConst0() {
+	out := s.ineq[:0]
+	for _, c := range s.ineq {
+		if c.Bad || (len(c.T) == 0 && c.C >= 0) {
+			continue
+		}
+		out = append(out, c)
+	}
+	s.ineq = out
 }
 
 // Feasible re-checks satisfiability (used to prune branches). Only the
